@@ -5,6 +5,7 @@ CONSTANTS
  Creators = {1}
  Subscribers = {2}
  OtherType = {}
+ MaxPre = 0
  MaxOps = 2
  MaxSends = 3
  MaxServes = 2
